@@ -17,7 +17,9 @@ func init() {
 
 var c12Ops = []string{"+", "-", "*", "/", "%", "^", "==", "!=", ">", ">=", "<", "<="}
 var c12SetOps = []string{"and", "or", "unless"}
-var c12Scalars = []float64{0, -2, 0.5, 3, 1, 2, 10, -0.5, 100, 12, 644}
+var c12Scalars = []float64{0, -2, 0.5, 3, 1, 2, 10, -0.5, 100, 12, 644,
+	// next to values the series take, but not equal to them: a comparison is exact
+	3.0000000002, 2.9999999999, 1.0000000001, 10.000000001, 4.9999999999, 7.0000000003, -2.0000000001}
 
 // genBinRecs: records tagged side=l|r|both, series label a (and sometimes b); one sample per
 // (side-visible series, step window); values include 0, negatives and fractions.
